@@ -73,6 +73,18 @@ def rand_linear_pattern(rng, names):
     return rec(2)
 
 
+def rand_nonlinear_pattern(rng, names):
+    """a random pattern in which one variable stands at two places (no grammar pattern does that; Unify!Verdict is
+    three-valued there: determined where every reading of 'corresponding positions' agrees)"""
+    p = rand_linear_pattern(rng, names)
+    if p is None or p['k'] == 'A':
+        return p
+    ls = enc.leaves(p)
+    i, j = rng.sample(range(len(ls)), 2)
+    ls[i]['b'] = ls[j]['b']
+    return p
+
+
 def inst(p, sub, rng):
     if p['k'] == 'A':
         return sub[p['b']]
@@ -190,7 +202,8 @@ def run(tier):
         states += r.distinct
         trans += r.generated
         cov['tlc_runs'].append({'cfg': cfg, 'distinct': r.distinct, 'generated': r.generated, 'wall_s': round(r.wall, 1)})
-    mc_pats = [("a/b", "b"), ("b", "a\\b"), ("a/b", "b/c"), ("b/c", "a\\b"), ("a/b", "(b/c)|d"), ("(b\\c)|d", "a\\b")]
+    mc_pats = [("a/b", "b"), ("b", "a\\b"), ("a/b", "b/c"), ("b/c", "a\\b"), ("a/b", "(b/c)|d"), ("(b\\c)|d", "a\\b"),
+               ("a/a", "a"), ("b", "b\\b"), ("a|b", "b/a")]          # the last three are not linear
     events, metas = [], {}
     eid = [0]
 
@@ -227,6 +240,11 @@ def run(tier):
     while len(rpats) < 12:
         p1 = rand_linear_pattern(rng, 'abcd')
         p2 = rand_linear_pattern(rng, 'abce')
+        if p1 and p2:
+            rpats.append((enc.show_cat(p1), enc.show_cat(p2)))
+    while len(rpats) < 24:
+        p1 = rand_nonlinear_pattern(rng, 'abcd')
+        p2 = (rand_nonlinear_pattern if rng.random() < 0.3 else rand_linear_pattern)(rng, 'abce')
         if p1 and p2:
             rpats.append((enc.show_cat(p1), enc.show_cat(p2)))
     from depccg.cat import Category
@@ -330,5 +348,5 @@ def run(tier):
     return conclude(PROP, tier, viols, cov, t0, [
         'a position carrying a three-part feature on one side and a one-part feature on the other is compatible exactly when the one-part side is absent, nb or a variable',
         'feature triples whose variables point in opposite directions are unspecified: either answer accepted',
-        'random patterns are linear (each variable at most once per pattern)',
+        'where a variable stands at several places of one pattern (random patterns only) the verdict is required only where the narrowest and the widest reading of "corresponding positions" agree',
     ])
